@@ -72,6 +72,14 @@ class Pool:
             return self.weight(shape, "qint4" if kind == "w4" else "qint2", axis, g), kind
         raise KeyError(kind)
 
+    def partner(self, shape, kind=None):
+        """A fresh operand that, one time in three, already carries state from an earlier rescaling (negative or
+        non-unit scale), as an operand in the middle of a program would."""
+        t, k = self.fresh(shape, kind)
+        if hasattr(t, "qtype") and type(t).__name__ == "QBytesTensor" and self.rng.random() < 0.33:
+            t = t * float(self.rng.choice([-1.0, -0.5, 2.0, -3.0]))
+        return t, k
+
     def add(self, t, tag):
         if isinstance(t, torch.Tensor) and t.numel() <= 8192 and t.numel() > 0:
             self.items.append((t, tag))
@@ -410,13 +418,15 @@ def templates():
     @reg("where")
     def _(p, a):
         cond = torch.from_numpy(p.rng.random(tuple(a.shape)) < 0.5)
-        lim = float(a.dequantize().abs().max()) if hasattr(a, "dequantize") else 1.0
+        lim = float(a.dequantize().abs().max()) if hasattr(a, "qtype") else float(a.abs().max())
         c = p.rng.integers(4)
         if c == 0:
             other = (torch.from_numpy(p.rng.uniform(-1, 1, tuple(a.shape)).astype(np.float32)) * lim).to(a.dtype)
             return lambda: torch.where(cond, a, other)
         if c == 1:
             other = p.sibling(a)
+            if not hasattr(other, "qtype"):  # a plain replacement must stay inside the quantized range
+                other = (other.float().tanh() * lim).to(a.dtype)
             return lambda: torch.where(cond, a, other)
         if c == 2:
             other = p.randn(tuple(a.shape))
@@ -447,9 +457,9 @@ def templates():
     def _(p, a):
         n = int(SIZES[p.rng.integers(len(SIZES))])
         if a.ndim == 1:
-            b, _k = p.fresh((a.shape[0], n))
+            b, _k = p.partner((a.shape[0], n))
         else:
-            b, _k = p.fresh(tuple(a.shape[:-2]) + (a.shape[-1], n)) if p.rng.random() < 0.5 else p.fresh((a.shape[-1], n))
+            b, _k = p.partner(tuple(a.shape[:-2]) + (a.shape[-1], n)) if p.rng.random() < 0.5 else p.partner((a.shape[-1], n))
         c = p.rng.integers(3)
         if c == 0:
             return lambda: a @ b
@@ -460,7 +470,7 @@ def templates():
     @reg("bmm")
     def _(p, a):
         n = int(SIZES[p.rng.integers(len(SIZES))])
-        b, _k = p.fresh((a.shape[0], a.shape[-1], n), ["act8", "acte4", "plain", "w8a0", "w8a-1"][p.rng.integers(5)])
+        b, _k = p.partner((a.shape[0], a.shape[-1], n), ["act8", "acte4", "plain", "w8a0", "w8a-1"][p.rng.integers(5)])
         return lambda: torch.bmm(a, b)
 
     @reg("linear")
@@ -475,7 +485,7 @@ def templates():
             w = p.weight((out_f, in_f), "qint4" if kind == "w4" else "qint2", 0,
                          None if p.rng.random() < 0.5 or in_f % 2 else in_f // 2)
         else:
-            w, _k = p.fresh((out_f, in_f), kind)
+            w, _k = p.partner((out_f, in_f), kind)
         bias = p.randn((out_f,)) if p.rng.random() < 0.5 else None
         return lambda: F.linear(a, w, bias)
 
